@@ -1,4 +1,5 @@
 """C07 Concurrent queries on a permutation class are correct under every interleaving."""
+import _thread
 import itertools
 import random
 import sys
@@ -29,7 +30,7 @@ ASSUMPTIONS = [
     "interleavings are sampled (statement granularity, one CPython build), not enumerated",
     "a hang is a violation only if every live thread is blocked acquiring the cache lock; any other watchdog expiry is inconclusive",
 ]
-REQUIRED = ["cases", "ops.decided", "yields.injected", "hook.activations", "cases.racy", "max.distinct_interleavings", "cases.registry_churn", "ops.clear_cache_concurrent"]
+REQUIRED = ["cases", "ops.decided", "yields.injected", "hook.activations", "cases.racy", "max.distinct_interleavings", "cases.registry_churn", "ops.clear_cache_concurrent", "cases.raw_threads", "cases.deep"]
 MIN_NONTRIVIAL = 20
 WATCHDOG = {"quick": 900, "thorough": 3 * 3600}
 CTX = None
@@ -202,8 +203,62 @@ def perform(av, patts, op):
         return sorted(got)
 
 
-def chk_case(ctx, raw_enc, programs, p_yield, seed):
-    """programs: one operation list per thread."""
+class _RawThread:
+    """a thread started through the low-level _thread module: it has no threading.Thread object, so it is invisible to
+    threading.active_count() / enumerate() (as are threads created by C extensions)"""
+
+    def __init__(self, target, args):
+        self.target, self.args = target, args
+        self.done = _thread.allocate_lock()
+        self.done.acquire()
+        self.ident = None
+
+    def _run(self):
+        self.ident = _thread.get_ident()
+        try:
+            self.target(*self.args)
+        finally:
+            self.done.release()
+
+    def start(self):
+        _thread.start_new_thread(self._run, ())
+
+    def join(self, timeout):
+        if self.done.acquire(timeout=timeout):
+            self.done.release()
+
+    def is_alive(self):
+        if self.done.acquire(False):
+            self.done.release()
+            return False
+        return True
+
+
+class _Gate:
+    """start line for the threads of a case (no threading.Thread machinery involved)"""
+
+    def __init__(self, n):
+        self.n, self.arrived, self.lock = n, 0, _thread.allocate_lock()
+
+    def wait(self, timeout=60):
+        with self.lock:
+            self.arrived += 1
+        t0 = time.time()
+        while self.arrived < self.n:
+            if time.time() - t0 > timeout:
+                raise threading.BrokenBarrierError
+            time.sleep(0)
+
+
+def catalan(n):
+    import math
+
+    return math.comb(2 * n, n) // (n + 1)
+
+
+def chk_case(ctx, raw_enc, programs, p_yield, seed, raw_threads=False, sizes=None):
+    """programs: one operation list per thread.  raw_threads: start them through _thread.  sizes: level sizes known in
+    closed form (deep cases, beyond the brute-force bound: only count operations are issued then)."""
     patts = [dec(q) for q in raw_enc]
     raw = [plain(q) for q in patts]
     lv = avmodel.levels(raw, NMAX)  # precomputed before the threads start
@@ -213,7 +268,7 @@ def chk_case(ctx, raw_enc, programs, p_yield, seed):
     STATE.pop("hookfail", None)
     y0 = STATE["yields"]
     nthreads = len(programs)
-    barrier = threading.Barrier(nthreads)
+    barrier = _Gate(nthreads)
     results = [[] for _ in range(nthreads)]
 
     def body(i):
@@ -228,13 +283,17 @@ def chk_case(ctx, raw_enc, programs, p_yield, seed):
                 results[i].append((op, None, "".join(traceback.format_exception_only(type(exc), exc)).strip()
                                    + " @ " + " <- ".join(f"{f.name}:{f.lineno}" for f in traceback.extract_tb(exc.__traceback__)[-3:])))
 
-    threads = [threading.Thread(target=body, args=(i,), daemon=True) for i in range(nthreads)]
+    if raw_threads:
+        threads = [_RawThread(body, (i,)) for i in range(nthreads)]
+        ctx.counters["cases.raw_threads"] += 1
+    else:
+        threads = [threading.Thread(target=body, args=(i,), daemon=True) for i in range(nthreads)]
     for t in threads:
         t.start()
     deadline = time.time() + 120
     for t in threads:
         t.join(max(0.1, deadline - time.time()))
-    case = [raw_enc, programs, p_yield, seed]
+    case = [raw_enc, programs, p_yield, seed, raw_threads, sizes]
     alive = [t for t in threads if t.is_alive()]
     if alive:
         frames = sys._current_frames()
@@ -255,7 +314,7 @@ def chk_case(ctx, raw_enc, programs, p_yield, seed):
         for op, got, err in res:
             ctx.ev()
             ctx.counters["ops.decided"] += 1
-            want = expected(raw, lv, op)
+            want = sizes[op[1]] if sizes is not None else expected(raw, lv, op)
             if err is not None:
                 ctx.fail("case", case, f"thread {i}: {op} raised {err}")
             elif got != want:
@@ -329,7 +388,8 @@ def rand_program(rng, top):
 
 def plan(tier, seed):
     per = 10 if tier == "quick" else 125
-    return [{"name": f"threads-{i}", "kind": "threads", "cases": per, "registry": 6 if tier == "quick" else 40} for i in range(16)]
+    return [{"name": f"threads-{i}", "kind": "threads", "cases": per, "registry": 6 if tier == "quick" else 40,
+             "deep": (1 if i % 2 == 0 else 0) if tier == "quick" else 4, "deep_top": 10 if tier == "quick" else 11} for i in range(16)]
 
 
 def run(ctx, spec):
@@ -339,7 +399,18 @@ def run(ctx, spec):
         mesh = any(isinstance(q, dict) for q in raw_enc)
         top = 6 if mesh else NMAX
         programs = [rand_program(rng, top) for _ in range(rng.choice([2, 2, 3, 4]))]
-        chk_case(ctx, raw_enc, programs, rng.choice([0.05, 0.3, 0.3, 0.7]), rng.randrange(10 ** 9))
+        chk_case(ctx, raw_enc, programs, rng.choice([0.05, 0.3, 0.3, 0.7]), rng.randrange(10 ** 9), raw_threads=rng.random() < 0.3)
+        if STATE.get("hung"):
+            break
+    # deep cases: a class with a closed-form enumeration (one pattern of length 3: Catalan numbers) asked for lengths whose
+    # levels hold thousands of permutations, by requests that jump over several missing levels at once
+    for _ in range(spec.get("deep", 0)):
+        patt = rng.sample(range(3), 3)
+        top = spec.get("deep_top", 10)
+        programs = [[["count", top]], [["count", top], ["count", top - 1]], [["count", top - 2], ["count", top]]][: rng.choice([2, 3, 3])]
+        chk_case(ctx, [patt], programs, rng.choice([0.0, 0.01, 0.03]), rng.randrange(10 ** 9), raw_threads=rng.random() < 0.3,
+                 sizes=[catalan(i) for i in range(top + 1)])
+        ctx.count("cases.deep")
         if STATE.get("hung"):
             break
     # registry churn: some threads keep creating handles from equal bases while others keep emptying the registry of classes
